@@ -400,7 +400,7 @@ func Resolve(v ssa.Value) (vals []ssa.Value, unknown bool) {
 		}
 		seen[v] = true
 		if u, ok := v.(*ssa.UnOp); ok && u.Op == token.MUL {
-			if a, ok := u.X.(*ssa.Alloc); ok && !cellEscapes(a) {
+			if a, ok := u.X.(*ssa.Alloc); ok && !cellEscapesBeyondDefer(a) {
 				for _, s := range ReachingStores(a, u) {
 					if s == nil {
 						rec(zeroOf(a))
@@ -775,6 +775,18 @@ func cellEscapesBeyondDefer(a *ssa.Alloc) bool {
 				return true
 			}
 		case *ssa.DebugRef:
+		case *ssa.FieldAddr, *ssa.IndexAddr:
+			for _, rr := range *r.(ssa.Value).Referrers() {
+				switch y := rr.(type) {
+				case *ssa.UnOp:
+					if y.Op != token.MUL {
+						return true
+					}
+				case *ssa.DebugRef:
+				default:
+					return true
+				}
+			}
 		case *ssa.MakeClosure:
 			fn, _ := x.Fn.(*ssa.Function)
 			if fn == nil {
